@@ -14,6 +14,7 @@ Engine rules (see DESIGN.md section 2/3):
     condition is an engine error;
   * every path ends with check() == sat.
 """
+import signal
 import time
 from fractions import Fraction
 
@@ -897,7 +898,15 @@ class Stats:
         self.capped = False
 
 
-def explore(harness, max_paths=10**9, max_wall=10**9, on_path=None):
+class _PathTimeout(BaseException):
+    pass
+
+
+def _on_alarm(signum, frame):
+    raise _PathTimeout()
+
+
+def explore(harness, max_paths=10**9, max_wall=10**9, on_path=None, path_timeout=120):
     """Run harness(ctx) over every feasible path.  Returns (stats, violations) where
     violations is a list of (Violation, info) for the path they occurred on."""
     global CTX
@@ -914,7 +923,21 @@ def explore(harness, max_paths=10**9, max_wall=10**9, on_path=None):
         CTX = ctx
         ok = True
         try:
-            harness(ctx)
+            # a change under test may make library code loop forever: bound each path
+            try:
+                signal.signal(signal.SIGALRM, _on_alarm)
+                signal.setitimer(signal.ITIMER_REAL, path_timeout)
+                armed = True
+            except (ValueError, AttributeError):
+                armed = False
+            try:
+                harness(ctx)
+            finally:
+                if armed:
+                    signal.setitimer(signal.ITIMER_REAL, 0)
+        except _PathTimeout:
+            st.inconclusive.append(f"a single path ran longer than {path_timeout}s")
+            ok = False
         except PathAbort:
             st.aborted += 1
         except SymxInconclusive as e:
